@@ -73,11 +73,35 @@ Theorem C20_std_output_accepted : forall e n ls got,
   ls <> [] -> Forall LineOK ls -> Plain got -> Plain (join_nl ls) ->
   contains BLANKLINE got = false ->
   true_for_1 (join_nl ls ++ [NL]) got = false ->
-  (e = true -> contains marker (collapse_ws got) = false) ->
+  (e = true -> contains marker got = false) ->
   std_check_output e n (join_nl ls ++ [NL]) got = true ->
   check_output default_flags got (join_nl ls) = true.
 Proof. exact std_output_accepted. Qed.
 Print Assumptions C20_std_output_accepted.
+
+(* ... lifted to the comparison the run loop makes for one example (RunLoop.part_check; um = output of earlier examples that no
+   want has consumed yet): an example that is not an expression or whose value is None, compared by what it wrote, ... *)
+Theorem C20_std_statement_example_passes : forall e n ls um out,
+  ls <> [] -> Forall LineOK ls -> Plain out -> Plain (join_nl ls) ->
+  contains BLANKLINE out = false ->
+  true_for_1 (join_nl ls ++ [NL]) out = false ->
+  (e = true -> contains marker out = false) ->
+  std_check_output e n (join_nl ls ++ [NL]) out = true ->
+  part_check default_flags (join_nl ls) um out NotEvaled = GW_ok.
+Proof. exact std_statement_example_passes. Qed.
+Print Assumptions C20_std_statement_example_passes.
+
+(* ... and an expression example that writes nothing: the standard module compares repr(value) + newline, xdoctest the repr.
+   (An expression example that BOTH writes and has a value is finding F6.) *)
+Theorem C20_std_expression_example_passes : forall e n ls um r,
+  ls <> [] -> Forall LineOK ls -> Plain r -> Plain (join_nl ls) ->
+  contains BLANKLINE (r ++ [NL]) = false ->
+  true_for_1 (join_nl ls ++ [NL]) (r ++ [NL]) = false ->
+  (e = true -> contains marker (r ++ [NL]) = false) ->
+  std_check_output e n (join_nl ls ++ [NL]) (r ++ [NL]) = true ->
+  part_check default_flags (join_nl ls) um [] (EvalRepr r) = GW_ok.
+Proof. exact std_expression_example_passes. Qed.
+Print Assumptions C20_std_expression_example_passes.
 
 (* the lemma behind the ELLIPSIS-only case: the wildcard relation survives ' '.join(text.split()) on both texts *)
 Theorem C20_ellmatch_collapse : forall g w, EllMatch g w -> EllMatch (collapse_ws g) (collapse_ws w).
@@ -93,7 +117,7 @@ Print Assumptions C20_split_collapse.
 Theorem C20_std_output_ellipsis_example :
   demo2_want_lines <> [] /\ Forall LineOK demo2_want_lines /\ Plain demo2_got /\ Plain (join_nl demo2_want_lines) /\
   contains BLANKLINE demo2_got = false /\ true_for_1 (join_nl demo2_want_lines ++ [NL]) demo2_got = false /\
-  contains marker (collapse_ws demo2_got) = false /\
+  contains marker demo2_got = false /\
   std_check_output true false (join_nl demo2_want_lines ++ [NL]) demo2_got = true /\
   std_check_output false false (join_nl demo2_want_lines ++ [NL]) demo2_got = false.
 Proof. exact demo_std_output_ellipsis_hyps. Qed.
